@@ -1717,19 +1717,25 @@ Notation is_chain := (is_chain parent_of).
 Notation hdrs_of := (hdrs_of parent_of).
 
 (* the node (not in sync) ignores block inventories *)
+(* a block inventory clears the sync flags (ClearInSync); on a connection that was just made they are clear *)
+Lemma clear_in_sync_id s :
+  ready s = false -> pending_sync s = false -> was_in_sync s = false -> clear_in_sync s = s.
+Proof. destruct s. cbn. intros -> -> ->. reflexivity. Qed.
+
 Lemma deliver_invs invs : forall w,
   cw_chan w = invs -> Forall is_inv invs -> ready (node_sync w) = false ->
+  pending_sync (node_sync w) = false -> was_in_sync (node_sync w) = false ->
   settle (length invs) w = CW (cw_node w) (cw_peer w) [] (cw_reqs w) (cw_heard w).
 Proof.
-  induction invs as [|m invs IH]; intros w Hc Hall Hr.
+  induction invs as [|m invs IH]; intros w Hc Hall Hr Hp Hw.
   - rewrite settle_0. destruct w. cbn in *. subst. reflexivity.
   - inversion Hall as [|m0 l0 Hm Hall' E0]; subst. destruct m as [| | |id]; try destruct Hm.
     destruct (step_inv MAXR LIM HT HDT BT DELTA M parent_of w id invs Hc) as [K N].
     cbn [length]. rewrite settle_S. assert (K' : (skind w =? 0) = false) by (rewrite K; reflexivity). rewrite K'.
-    unfold Peer.handle_block_inv in N. rewrite Hr in N.
+    unfold Peer.handle_block_inv in N. rewrite (clear_in_sync_id _ Hr Hp Hw) in N.
     assert (Hn : snext w = CW (cw_node w) (cw_peer w) invs (cw_reqs w) (cw_heard w)).
     { rewrite N. unfold with_node, node_sync. destruct (cw_node w). reflexivity. }
-    rewrite Hn. rewrite IH; [reflexivity|reflexivity|exact Hall'|exact Hr].
+    rewrite Hn. rewrite IH; [reflexivity|reflexivity|exact Hall'|exact Hr|exact Hp|exact Hw].
 Qed.
 
 (* the connection was just made: version (and possibly inventories of new tips) on its way, the node
@@ -1748,6 +1754,7 @@ Record Fresh (B : list Z) (w : cworld) (k : nat) : Prop := {
   f_hc : handshake_complete (node_sync w) = false;
   f_ready : ready (node_sync w) = false;
   f_pend : pending_sync (node_sync w) = false;
+  f_was : was_in_sync (node_sync w) = false;
   f_chan : exists invs, cw_chan w = MVersion :: invs /\ Forall is_inv invs;
   f_reqs : cw_reqs w = [];
 }.
@@ -1766,7 +1773,7 @@ Proof.
                  (connected (node_sync w)) (req_times (node_sync w)) (now (node_sync w))) in *.
   (* inventories *)
   pose proof (deliver_invs invs (snext w)) as Hi. rewrite N0 in Hi. cbn [cw_chan cw_node cw_peer cw_reqs cw_heard] in Hi.
-  specialize (Hi eq_refl Hinv (f_ready _ _ _ F)).
+  specialize (Hi eq_refl Hinv (f_ready _ _ _ F) (f_pend _ _ _ F) (f_was _ _ _ F)).
   set (w1 := CW (with_node w s0) (cw_peer w) [] [] (cw_heard w)) in *.
   assert (E1 : settle (1 + length invs) w = w1).
   { rewrite settle_add. assert (K0' : skind w <> 0) by (rewrite K0; discriminate).
@@ -1911,6 +1918,7 @@ Definition clean_behind (parent_of : Z -> Z) (w : cworld) : bool :=
   (pending (rq s) =? 0) &&
   match B !! (k - 1)%nat with Some x => x =? last_saved (rq s) | None => false end &&
   negb (version_received s) && negb (handshake_complete s) && negb (ready s) && negb (pending_sync s) &&
+  negb (was_in_sync s) &&
   match cw_chan w with MVersion :: invs => forallb is_invb invs | _ => false end &&
   match cw_reqs w with [] => true | _ => false end.
 
